@@ -235,6 +235,8 @@ def run_c18(run, tier, wd, binary, replay):
     if tier == "quick":
         exprs = rng.sample(exprs, 2500)
     cases = [dict(kind="expr", text=e["text"], cfg=e["cfg"], val=e["val"]) for e in exprs]
+    # ... and with every placeholder written with a computed key (${${ka}}, ka: a): nesting inside an expression; same result
+    cases += [dict(kind="expr", text=e["text"], cfg=e["cfg"], val=e["val"], nest=True) for e in exprs[::3] if "${" in e["text"]]
     # the field receives the expression's result whatever numeric type it has: small non-negative results also into sized, unsigned,
     # float and pointer fields (the expected text is the same)
     sized = ["int", "int64", "int32", "int8", "uint16", "float32", "puint8"]
@@ -246,7 +248,7 @@ def run_c18(run, tier, wd, binary, replay):
     if replay:
         rec = json.load(open(replay))["replay"]["record"]
         if rec["kind"] == "expr":
-            cases = [dict(kind="expr", text=rec["text"], cfg=rec["cfg"], val=rec["want"], ftype=rec.get("ftype", ""))]
+            cases = [dict(kind="expr", text=rec["text"], cfg=rec["cfg"], val=rec["want"], ftype=rec.get("ftype", ""), nest=bool(rec.get("nest")))]
         elif rec["kind"] == "vslice":
             cases = [dict(kind="vslice", xs=rec["xs"], cons=rec["cons"])]
         elif rec["kind"] == "vnest":
